@@ -12,6 +12,7 @@ import PolyVerif.Model.Splat
 import PolyVerif.Lemmas.Splat
 import PolyVerif.Lemmas.Spz
 import PolyVerif.Gen.SplatPlyTable
+import PolyVerif.Gen.SpzValidate
 import PolyVerif.Lemmas.RealScalar
 import Mathlib.Analysis.SpecialFunctions.Log.Basic
 import Mathlib.Tactic
@@ -569,6 +570,52 @@ theorem spz_dequant_is_published (E : Spz.Env ℝ) (hE : RealEnv E) (h : Header)
 example : RealEnv ⟨fun z => (z : ℝ), fun k => (2 : ℝ) ^ k, 0, 0⟩ := fun _ => rfl
 
 end spzspec
+
+/-! ## Part 2c — `Header.Validate` against the source (guards regenerated on every run) -/
+
+section spzvalidate
+open Spz
+
+/-- value of a header field by its Go name -/
+def fieldOf (h : Header) : String → Nat
+  | "Magic" => h.magic
+  | "Version" => h.version
+  | "NumPoints" => h.numPoints
+  | "ShDegree" => h.shDegree
+  | "FractionalBits" => h.fractionalBits
+  | "Flags" => h.flags
+  | _ => h.reserved
+
+/-- one extracted guard `field op value` -/
+def guardHolds (h : Header) (g : String × String × Nat) : Bool :=
+  let x := fieldOf h g.1
+  match g.2.1 with
+  | "<" => x < g.2.2
+  | ">" => x > g.2.2
+  | "<=" => x ≤ g.2.2
+  | ">=" => x ≥ g.2.2
+  | "!=" => x != g.2.2
+  | _ => x == g.2.2
+
+/-- `Header.Validate` as the source has it NOW (guards regenerated from formats/spz/header.go on every run): the
+    model's `Header.valid` accepts exactly the headers no extracted guard rejects — in particular the point limit is
+    the source's constant with the source's comparison (`NumPoints > 10000000`: exactly 10 000 000 points are allowed) -/
+theorem spz_validate_matches_source (h : Header) :
+    h.valid = !(Gen.SpzValidate.guards.any (guardHolds h)) := by
+  simp only [Gen.SpzValidate.guards, List.any_cons, List.any_nil, guardHolds, fieldOf, Header.valid, Bool.or_false]
+  rw [Bool.eq_iff_iff]
+  simp only [Bool.and_eq_true, Bool.not_eq_true', Bool.or_eq_false_iff, decide_eq_true_eq, decide_eq_false_iff_not,
+    beq_iff_eq, bne_eq_false_iff_eq]
+  have hm : maxPoints = 10000000 := rfl
+  have hg : magicNum = 1347635022 := rfl
+  rw [hm, hg]
+  omega
+
+/-- the boundary: 10 000 000 points pass the limit, 10 000 001 do not -/
+example : (⟨magicNum, 2, 10000000, 0, 0, 0, 0⟩ : Header).valid = true ∧
+    (⟨magicNum, 2, 10000001, 0, 0, 0, 0⟩ : Header).valid = false := by decide
+
+end spzvalidate
 
 /-! ## Part 3 — PLY splat export (tables regenerated from formats/ply/types.go and reader.go on every run) -/
 
